@@ -52,9 +52,6 @@ func (v *Value) Value(vars map[string]interface{}) (interface{}, error) {
 		if value, ok := vars[v.Raw]; ok {
 			return value, nil
 		}
-		if v.VariableDefinition != nil && v.VariableDefinition.DefaultValue != nil {
-			return v.VariableDefinition.DefaultValue.Value(vars)
-		}
 		return nil, nil
 	case IntValue:
 		return strconv.ParseInt(v.Raw, 10, 64)
